@@ -874,6 +874,13 @@ func (n *nodeSim) track(i int, sp *BSpec, b bpv7.Bundle, via string, from int) *
 		tr.expiry = tr.tAccept.Add(tr.life - age)
 	} else {
 		tr.expiry = b.PrimaryBlock.CreationTimestamp.DtnTime().Time().Add(tr.life)
+		// a bundle that carries both a creation time and an age block: whichever notion of age
+		// ends the lifetime first is accepted (the statement names the age only for clock-less bundles)
+		if sp.AgeMs >= 0 {
+			if e2 := tr.tAccept.Add(tr.life - time.Duration(sp.AgeMs)*time.Millisecond); e2.Before(tr.expiry) {
+				tr.expiry = e2
+			}
+		}
 	}
 	dst := b.PrimaryBlock.Destination
 	tr.localDst = dst.SameNode(bpv7.MustNewEndpointID(simNodeEID))
@@ -1094,7 +1101,5 @@ func TestSimWorker(t *testing.T) {
 		t.Skip("simulation worker: set VERIF_HARNESS")
 	}
 	simT = t
-	if code := simk.WorkerMain(simWorkerHarnesses()); code != 0 {
-		os.Exit(code)
-	}
+	os.Exit(simk.WorkerMain(simWorkerHarnesses()))
 }
